@@ -12,8 +12,9 @@ import (
 	"github.com/iotaledger/hive.go/runtime/workerpool"
 )
 
-// runLockRace: "lockrace ROUNDS SEED" — Submit / IsRunning callers in tight loops against a controller that cycles
-// Shutdown(); Start() ROUNDS times as fast as it can (worker counts 1..4, cancel on/off).  Every Shutdown and every
+// runLockRace: "lockrace ROUNDS SEED" — Submit / IsRunning callers in tight loops and a second goroutine calling Shutdown
+// over and over, against a controller that cycles Shutdown(); Start() ROUNDS times as fast as it can (worker counts 1..4,
+// cancel on/off).  Every Shutdown and every
 // Start asks for the pool's write lock while read-side critical sections (Submit's counted check, IsRunning, the
 // dispatcher's hasWork) are in flight: a read lock that is taken twice on one call path deadlocks as soon as a writer
 // queues between the two, a write lock held across a blocking wait stops everything.  Watchdog: the controller has to
@@ -68,6 +69,17 @@ func runLockRace(line string) *result {
 				}
 			}()
 		}
+		// a second caller of Shutdown, concurrently with the controller's Shutdown(); Start()
+		subs.Add(1)
+		go func() {
+			defer subs.Done()
+			for i := 0; !stop.Load(); i++ {
+				pool.Shutdown()
+				for k := 0; k < 1+i%7; k++ {
+					runtime.Gosched()
+				}
+			}
+		}()
 		ctlDone := make(chan struct{})
 		go func() {
 			defer close(ctlDone)
@@ -75,6 +87,9 @@ func runLockRace(line string) *result {
 				pool.Shutdown()
 				pool.Start()
 				cycles.Add(1)
+				for k := 0; k < i%4; k++ {
+					runtime.Gosched() // let some Submits be accepted before the next Shutdown
+				}
 			}
 		}()
 		// watchdog: no completed cycle for a long time = stuck (confirmed by an unreadable pool, or by a second period)
